@@ -9,6 +9,7 @@ import (
 	"math/rand"
 	"reflect"
 	"strconv"
+	"strings"
 
 	"github.com/uhn/ggql/pkg/ggql"
 
@@ -39,6 +40,10 @@ func (w *world) reflectCall(id int, field int, pos []interface{}) (interface{}, 
 // type ([]*F20 instead of []interface{}): the shape a Go program naturally returns
 func typedSlice(v interface{}) interface{} {
 	l, ok := v.([]interface{})
+	if ok && len(l) == 0 {
+		// an empty list the way a Go program has it when it appended nothing: a nil typed slice
+		return []*F20(nil)
+	}
 	if !ok || len(l) < 2 {
 		return v
 	}
@@ -87,7 +92,7 @@ func c02Exec(input sx.S) (obs sx.S) {
 			if c == 'A' {
 				anyUsed = true
 			}
-			if c == 'F' {
+			if c == 'F' || c == 'G' {
 				reflUsed = true
 			}
 		}
@@ -103,7 +108,7 @@ func c02Run(secs []sx.S, strat map[int]byte, register, regFields, anyUsed, reflU
 		}
 	}()
 	// the world as in execSetup, with the assignment of this run
-	w := &world{nodes: map[int]*gnode{}, strat: map[int]bool{}, objs: map[int]interface{}{}, decl: map[[2]int][]int{}, strat3: strat, regOrder: map[[2]int][]int{}}
+	w := &world{nodes: map[int]*gnode{}, strat: map[int]bool{}, objs: map[int]interface{}{}, decl: map[[2]int][]int{}, strat3: strat, regOrder: map[[2]int][]int{}, objField: map[[2]int]bool{}, filled: map[int]bool{}}
 	for _, n := range section(secs, "graph") {
 		nl := sx.List(n)
 		gn := &gnode{gotype: sx.Int(nl[2]), fields: map[int]behav{}}
@@ -137,6 +142,18 @@ func c02Run(secs []sx.S, strat map[int]byte, register, regFields, anyUsed, reflU
 				names = append(names, sx.Int(sx.List(a)[1]))
 			}
 			w.decl[[2]int{sx.Int(tl[1]), sx.Int(fl[1])}] = names
+			// a field whose type is a plain (possibly non-null) object type
+			ft := fl[2]
+			if sx.Head(ft) == "nn" {
+				ft = sx.List(ft)[1]
+			}
+			if sx.Head(ft) == "n" {
+				for _, t2 := range types {
+					if sx.Head(t2) == "obj" && sx.List(t2)[1].(string) == sx.List(ft)[1].(string) {
+						w.objField[[2]int{sx.Int(tl[1]), sx.Int(fl[1])}] = true
+					}
+				}
+			}
 		}
 	}
 	rt := section(secs, "root")
@@ -236,6 +253,9 @@ func c02Run(secs []sx.S, strat map[int]byte, register, regFields, anyUsed, reflU
 // sample is a value of the Go type that stands for object type id under the current assignment
 func (w *world) sample(id int) interface{} {
 	switch w.strat3[id] {
+	case 'G':
+		o, _ := newStructObj(w, -1, id)
+		return o
 	case 'F':
 		return newReflectObj(w, -1, id)
 	case 'A':
@@ -260,7 +280,7 @@ func c02Valid(input sx.S) bool {
 		}
 		for _, p := range al[2:] {
 			pl := sx.List(p)
-			if c := pl[1].(string); c != "R" && c != "A" && c != "F" {
+			if c := pl[1].(string); c != "R" && c != "A" && c != "F" && c != "G" {
 				return false
 			}
 		}
@@ -310,6 +330,36 @@ func c02Gen(r *rand.Rand, tier string) []Case {
 			}
 		}
 		asg := []sx.S{"assignments", all("R", 1), all("A", 1), all("F", 1), all("F", disc), mix("RA", 1), mix("RF", 1), mix("RF", disc), all("F", 2)}
+		// reflection over struct fields (promoted from an embedded struct) for the object types that
+		// declare no arguments and whose data is constant; reflection over methods for the others
+		elig := map[int]bool{}
+		for _, t := range section(secs, "schema") {
+			if sx.Head(t) == "obj" && !strings.Contains(sx.String(t), "(a ") {
+				elig[sx.Int(sx.List(t)[1])] = true
+			}
+		}
+		for _, nd := range section(secs, "graph") {
+			nl := sx.List(nd)
+			for _, f := range nl[3:] {
+				if fl := sx.List(f); sx.Head(fl[2]) != "const" || sx.Int(fl[1]) > 8 {
+					delete(elig, sx.Int(nl[2]))
+				}
+			}
+		}
+		if len(elig) > 0 {
+			for _, reg := range []int{1, disc} {
+				a := []sx.S{"asg", sx.A(reg)}
+				for _, o := range objs {
+					if elig[o] {
+						a = append(a, sx.L(sx.A(o), "G"))
+					} else {
+						a = append(a, sx.L(sx.A(o), "F"))
+					}
+				}
+				asg = append(asg, a)
+			}
+			c.Tags = append(c.Tags, "struct-field-reflection")
+		}
 		c.Input = append(sx.List(c.Input), asg)
 		c.Tags = append(c.Tags, "nontrivial")
 		out = append(out, c)
